@@ -120,6 +120,11 @@ pub(crate) struct CoreState {
   /// Maps Target URI -> ReconnectState
   pub(crate) reconnect_states: HashMap<String, ReconnectState>,
 
+  /// Sessions whose ActorStopping arrived before their NewConnectionEstablished (a connection
+  /// that failed faster than it was registered): remembered so that the late registration is
+  /// recognised as a connection that is already lost. Bounded; oldest entries are dropped.
+  pub(crate) sessions_stopped_unregistered: std::collections::VecDeque<usize>,
+
   // --- Mappings for ISocket interaction and event routing ---
   /// Maps a pipe_read_id (actual for sessions, or synthetic for uring FDs) to the endpoint_uri.
   /// Used to find the `EndpointInfo` when a message/event arrives on a "pipe" (actual or conceptual).
@@ -141,6 +146,7 @@ impl CoreState {
       pipe_reader_task_handles: HashMap::new(),
       endpoints: HashMap::new(),
       reconnect_states: HashMap::new(),
+      sessions_stopped_unregistered: std::collections::VecDeque::new(),
       pipe_read_id_to_endpoint_uri: HashMap::new(),
       #[cfg(feature = "inproc")]
       bound_inproc_names: HashSet::new(),
